@@ -38,9 +38,21 @@ def load_contracts():
     sys.path.insert(0, VERIF)
     import contracts
     for m in sorted(pkgutil.iter_modules(contracts.__path__), key=lambda m: m.name):
-        importlib.import_module(f'contracts.{m.name}')
+        try:
+            importlib.import_module(f'contracts.{m.name}')
+        except Exception as e:      # a broken contracts file must not take the other properties down with it
+            BROKEN_MODULES[m.name] = f'{type(e).__name__}: {e}'
+            print(f'checker: contracts/{m.name}.py failed to import: {type(e).__name__}: {e}', file=sys.stderr)
     from pyvc.harness import REGISTRY
     return REGISTRY
+
+
+BROKEN_MODULES: dict[str, str] = {}
+
+
+def _broken_for(prop: str) -> list[str]:
+    return [f'contracts/{m}.py failed to import: {why}' for m, why in BROKEN_MODULES.items()
+            if m.lower().startswith(prop.lower() + '_')]
 
 
 def load_known():
@@ -121,6 +133,8 @@ def report(prop, tier, seed, results, known, wall) -> int:
                 violations.append((r, o))
     for c in crashes:
         problems.append(f"{c['id']}: CRASH {c['crash']}")
+    for b in _broken_for(prop):
+        problems.append('error: ' + b)
 
     # -- known findings (printed once per finding id)
     seen_known = {}
